@@ -782,10 +782,14 @@ fn ext_valid(schema: &Value, root: &Value, v: &Value, depth: usize) -> Option<bo
             return Some(false);
         }
     }
-    for key in ["allOf", "anyOf"] {
+    for key in ["allOf", "anyOf", "oneOf"] {
         if let Some(l) = o.get(key).and_then(|l| l.as_array()) {
             let rs: Vec<bool> = l.iter().map(|s| ext_valid(s, root, v, depth + 1)).collect::<Option<Vec<_>>>()?;
-            let ok = if key == "allOf" { rs.iter().all(|b| *b) } else { rs.iter().any(|b| *b) };
+            let ok = match key {
+                "allOf" => rs.iter().all(|b| *b),
+                "anyOf" => rs.iter().any(|b| *b),
+                _ => rs.iter().filter(|b| **b).count() == 1,
+            };
             if !ok {
                 return Some(false);
             }
@@ -1026,6 +1030,37 @@ fn gen_ext(rng: &mut Rng, depth: usize) -> Value {
         return json!({"type": "object", "properties": props, "patternProperties": pats, "required": req,
                       "additionalProperties": if rng.chance(1, 2) { json!(false) } else { json!({"type": "null"}) }});
     }
+    if rng.chance(1, 6) {
+        // oneOf: branches that are disjoint (supported, compiled like anyOf) and branches that overlap (the
+        // schema must be refused, or at least never yield an instance that matches two branches)
+        let obj = |disc: Value, extra: bool| -> Value {
+            let mut props = Map::new();
+            props.insert("on".into(), disc);
+            let mut req = vec![json!("on")];
+            if extra {
+                props.insert("level".into(), json!({"type": "integer", "minimum": 0, "maximum": 3}));
+                req.push(json!("level"));
+                json!({"type": "object", "properties": props, "required": req, "additionalProperties": false})
+            } else {
+                json!({"type": "object", "properties": props, "required": req})
+            }
+        };
+        let (a, b) = match rng.below(12) {
+            0 => (json!({"const": true}), json!({"type": "boolean"})),
+            1 => (json!({"const": true}), json!({"const": false})),
+            2 => (json!({"type": "integer", "minimum": 0, "maximum": 5}), json!({"type": "integer", "minimum": 5, "maximum": 9})),
+            3 => (json!({"type": "integer", "minimum": 0, "maximum": 4}), json!({"type": "integer", "minimum": 5, "maximum": 9})),
+            4 => (json!({"type": "string", "maxLength": 2}), json!({"type": "integer", "minimum": 0, "maximum": 9})),
+            5 => (json!({"type": "null"}), json!({"type": ["null", "boolean"]})),
+            6 => (json!({"enum": ["a", "b"]}), json!({"enum": ["b", "c"]})),
+            7 => (json!({"enum": ["a", "b"]}), json!({"enum": ["c"]})),
+            8 => (obj(json!({"const": true}), true), obj(json!({"type": "boolean"}), false)),
+            9 => (obj(json!({"const": true}), true), obj(json!({"const": false}), false)),
+            10 => (json!({"type": "boolean"}), json!({"const": false})),
+            _ => (obj(json!({"type": "boolean"}), false), obj(json!({"const": false}), true)),
+        };
+        return if rng.chance(1, 2) { json!({"oneOf": [a, b]}) } else { json!({"oneOf": [b, a, {"type": "array", "items": {"type": "null"}, "maxItems": 1}]}) };
+    }
     match rng.below(5) {
         0 => json!({"type": "array", "items": gen_ext(rng, depth - 1), "minItems": rng.below(2), "maxItems": rng.range(2, 4)}),
         1 => json!({"anyOf": [gen_ext(rng, depth - 1), gen_ext(rng, depth - 1)]}),
@@ -1144,6 +1179,53 @@ fn gen_pair(rng: &mut Rng, depth: usize) -> (Value, Value) {
             6 => (json!({"const": {"k": [true, 1.5, "s"]}}), json!({"k": [true, 1.5, "s"]})),
             _ => (json!({"type": "boolean"}), json!(rng.chance(1, 2))),
         };
+    }
+    if rng.chance(1, 5) {
+        // keyword order: declared members, then an in-place applicator (allOf / anyOf / $ref), then the keyword
+        // that closes the object or tuple — the applicator must not hide the declared members from it
+        let applicator = |rng: &mut Rng, m: &mut Map<String, Value>, array: bool| match rng.below(4) {
+            0 => {
+                m.insert("allOf".into(), json!([{"type": if array { "array" } else { "object" }}]));
+            }
+            1 if !array => {
+                m.insert("anyOf".into(), json!([{"required": ["id"]}, {"required": ["tag"]}]));
+            }
+            1 => {
+                m.insert("anyOf".into(), json!([{"minItems": 1}, {"maxItems": 0}]));
+            }
+            2 => {
+                m.insert("$ref".into(), json!("#/$defs/base"));
+                m.insert("$defs".into(), json!({"base": {"type": if array { "array" } else { "object" }}}));
+            }
+            _ => {
+                m.insert("anyOf".into(), json!([{"type": "null"}, {"type": if array { "array" } else { "object" }}]));
+            }
+        };
+        let id = rng.below(100) as i64;
+        let tag = *rng.pick(&["ab", "x", ""]);
+        let mut m = Map::new();
+        if rng.chance(1, 2) {
+            m.insert("type".into(), json!("object"));
+            m.insert("properties".into(), json!({"id": {"type": "integer", "minimum": 0, "maximum": 99}, "tag": {"type": "string", "maxLength": 3}}));
+            if rng.chance(1, 3) {
+                m.insert("required".into(), json!(["id"]));
+            }
+            applicator(rng, &mut m, false);
+            m.insert("additionalProperties".into(), json!(false));
+            let inst = match rng.below(3) {
+                0 => json!({"id": id}),
+                1 => json!({"id": id, "tag": tag}),
+                _ => json!({"id": id, "tag": tag}),
+            };
+            return (Value::Object(m), inst);
+        } else {
+            m.insert("type".into(), json!("array"));
+            m.insert("prefixItems".into(), json!([{"type": "integer", "minimum": 0, "maximum": 99}, {"type": "string", "maxLength": 3}]));
+            applicator(rng, &mut m, true);
+            m.insert("items".into(), json!(false));
+            let inst = if rng.chance(1, 2) { json!([id, tag]) } else { json!([id]) };
+            return (Value::Object(m), inst);
+        }
     }
     match rng.below(4) {
         0 => {
